@@ -56,7 +56,8 @@ def make_pool(ctx, n, kind="plain", degenerate=False):
     pool = []
     for i in range(n):
         option = lc.OPTIONS[i % 3]
-        sub = (option != "euler") and rng.random() < 0.35
+        # amounts below one molecule: at random, and always on four fixed positions of the pool (both stochastic engines)
+        sub = (option != "euler") and (rng.random() < 0.35 or i % 12 in (1, 2, 7, 8))
         forced0 = (i % 9 == 4)            # t_max exactly 0 ("just the initial state"), both space types
         forced_q = (i % 5 == 3)
         S, info = lc.gen_script(rng, option, max_steps=24 if option != "gillespie" else 8, sub_molecule=sub,
